@@ -398,16 +398,16 @@ def prop_doas_noirf(case):
         ec = np.abs(col(f"{o['label']}_cos") - ref[:, j].real)
         es = np.abs(col(f"{o['label']}_sin") - ref[:, j].imag)
         if not (np.all(ec <= tol[:, j]) and np.all(es <= tol[:, j])):
-            bad.append((o["label"], float(np.nanmax(ec / tol[:, j])), float(np.nanmax(es / tol[:, j]))))
+            bad.append((o["label"], float(np.nanmax(ec)), float(np.nanmax(es))))
     if bad:
         # clause selection only: do the columns hold the right functions under the wrong labels?
         flat = np.concatenate([ref.real, ref.imag], axis=1)
         tl = np.concatenate([tol, tol], axis=1)
         perm_ok = all(any(np.all(np.abs(mat[:, c] - flat[:, r]) <= tl[:, r]) for c in range(2 * n)) for r in range(2 * n))
         if perm_ok and n > 1:
-            raise Violation("doas_noirf.column_labels", f"columns are the right quadratures but not under their labels {labels}: {bad}")
+            raise Violation("doas_noirf.column_labels", f"columns are the right quadratures but not under their labels {labels}: (label, max |cos err|, max |sin err|)={bad}")
         sign_flip = all(np.all(np.abs(col(f"{o['label']}_sin") + ref[:, j].imag) <= tol[:, j]) for j, o in enumerate(case["osc"]))
-        raise Violation("doas_noirf.quadratures", f"(label, cos err/tol, sin err/tol)={bad} sine sign flipped={sign_flip}")
+        raise Violation("doas_noirf.quadratures", f"(label, max |cos err|, max |sin err|)={bad} sine sign flipped={sign_flip}")
     tags = [f"n{n}", "neg_rate" if any(o["gamma"] < 0 for o in case["osc"]) else "pos_rate"]
     return {"nontrivial": n >= 2 or any(o["gamma"] < 0 for o in case["osc"]), "tags": tags}
 
@@ -693,6 +693,7 @@ def prop_artifact(case):
     def reference(sign_shift):
         ref = np.zeros(mat.shape)
         tol = np.zeros(mat.shape)
+        loose = np.zeros(mat.shape)
         for a, i in enumerate(idx):
             gs, shift = O.effective_irf(case["irf"], case["gaxis"], i)
             c = gs[0][0] + (2 * shift if sign_shift == +1 else 0)
@@ -703,20 +704,27 @@ def prop_artifact(case):
                 ref[a, :, q - 1] = col
                 # backward error of t - c: 16 eps (|t| + |c| + |shift|) times the largest slope ~ 2 scale / w
                 tol[a, :, q - 1] = sc * (TOL_REL + 16 * EPS * (np.abs(times) + abs(float(c)) + abs(float(shift))) * 2 / float(w))
-        return ref, tol
+                if q == 3:
+                    # rounding of the *expanded* polynomial c^2 - w^2 - 2 c t + t^2 (clause selection only)
+                    loose[a, :, 2] = 16 * EPS * (np.abs(times) + abs(float(c)) + abs(float(shift))) ** 2 / float(w) ** 4 * np.abs(ref[a, :, 0])
+        return ref, tol, loose
 
-    ref, tol = reference(-1)
+    ref, tol, loose = reference(-1)
     err = np.abs(mat - ref)
     if not np.all(err <= tol):
         p = np.unravel_index(int(np.argmax(np.nan_to_num(err / tol, nan=np.inf))), err.shape)
         msg = f"index {p[0]} t={times[p[1]]!r} order {p[2] + 1}: code {mat[p]!r} oracle {ref[p]!r} tol {tol[p]:.3e}"
         if shifted:
-            ref_p, tol_p = reference(+1)
-            if np.all(np.abs(mat - ref_p) <= tol_p):
+            ref_p, tol_p, loose_p = reference(+1)
+            if np.all(np.abs(mat - ref_p) <= tol_p + loose_p):
                 raise Violation("artifact.irf_position", "artifact sits at centre + shift_i; " + msg)
         bad_orders = sorted({int(q) + 1 for q in np.argwhere(~(err <= tol))[:, 2]})
         if bad_orders == [1]:
             raise Violation("artifact.gaussian", msg)
+        if bad_orders == [3] and np.all(err <= tol + loose):
+            raise Violation("artifact.order3_cancellation",
+                            "second-derivative column loses precision by cancellation in the expanded polynomial c^2 - w^2 - 2ct + t^2 "
+                            f"(error {float(err[p] / tol[p] * TOL_REL):.2e} of the column scale, bound eps (|t|+|c|)^2 / w^2); " + msg)
         raise Violation(f"artifact.derivative_order{bad_orders[-1]}" if 1 not in bad_orders else "artifact.gaussian", msg)
     tags = [f"order{order}", "own_width" if case.get("own_width") is not None else "irf_width", case["irf"]["type"]]
     if shifted:
